@@ -19,6 +19,10 @@ CLAIMED = {
   text="Machine-checked Coq theorems over the model of line_profiles/measurement/dimension/surface_deviation/point_cloud/tolerance_map: deviation magnitude, sign and reconstruction for all points; extremes and zone after every construct/push history; parallel-vector invariant and reject-is-noop for every point-cloud history; tolerance-map lookup spec for every sorted table. The model is tied to /repo on every run by differential correspondence (model evaluated at binary64 inside coqc against the compiled implementation); property oracles on the implementation's outputs produce replays.",
   note="Theorems over exact reals (" + REALS + "); rounding modelled not verified; the closest-point query feeding the deviation is an input (C02). Model hand-written; correspondence is differential testing on generated cases.",
   technique="Rocq proof (induction over histories, real algebra) + differential model/implementation correspondence"),
+ "C17": dict(
+  text="Coq theorems over the model of discrete_domain.rs / series1.rs: try_from accepts exactly the ascending vectors (also proved for binary64: on finite floats the check decides the real ordering); push accepts exactly values not below the last and preserves validity; linear has n ascending values spanning min..max and is symmetric in its bounds; scaling by any factor (negative reverses) and shifting keep validity; interpolation is None outside, a stored ordinate at a knot, the linear blend strictly inside an interval; index_of returns the last breakpoint not above x; resampled abscissae are n ascending values from x_min to x_max inside the domain; every reported level crossing lies on the graph at the level and every strictly bracketing segment contributes its crossing. Tie: differential correspondence on repeated knots, 1-2 element series, ulp neighbours of knots, both bound orders, negative scale factors.",
+  note="Theorems over exact reals (" + REALS + "; FloatAxioms for the binary64 validity lemma). NOT proved (checked per run by oracles only): a slice evaluates like its parent, split areas add up. binary search is its specification (any index among equal keys).",
+  technique="Rocq proof over a hand model + differential correspondence; Flocq order embedding for the validity check"),
  "C18": dict(
   text="Coq theorems for every finite angle / vector pair / (start, extent) / bound pair: range and same-direction of both normalisers, directed-angle range, rotation and cw+ccw laws, atan2-based vector angles, angular-interval sandwich (sound up to ANGLE_TOL, complete for swept angles), negative extent = same set, scalar-interval set algebra; the scalar-interval theorems are also proved for binary64 itself (every finite float). The Gallina definitions are REGENERATED from /repo's Rust source on every run by tools/rs2v.py and checked convertible with the proved model (one reflexivity obligation per function); a differential correspondence on boundary values is the second tie.",
   note="Angle theorems over exact reals (" + REALS + "); binary64 interval theorems additionally rely on the standard library's FloatAxioms; translator rs2v.py and the correspondence harness are trusted; intersects completeness is not proved (soundness is).",
